@@ -34,12 +34,27 @@ enum Expect {
     Different,       // must fail, or succeed with a different root
     Unjudged,        // model validation only (e.g. malformed names, stale caches)
 }
+/// one earlier use of the cache provider: a Merkle tree at a beacon, or the digest list of a range
+#[derive(Clone, Copy, Debug, PartialEq)]
+enum Hop {
+    Beacon(u64),
+    Range(u64, u64),
+}
+impl Hop {
+    fn coq(&self) -> String {
+        match self {
+            Hop::Beacon(b) => format!("HBeacon {}", coq::n(*b)),
+            Hop::Range(lo, hi) => format!("HRange {} {}", coq::n(*lo), coq::n(*hi)),
+        }
+    }
+}
 #[derive(Clone, Debug)]
 struct Scenario {
     label: &'static str,
     entries: Vec<Entry>, // in creation order
     beacon: u64,
-    history: Vec<u64>, // earlier computations with the same cache provider
+    history: Vec<Hop>, // earlier computations with the same cache provider
+    final_range: Option<(u64, u64)>, // after the root: the digest list served for this range, same provider
     json_cache: bool,
     expect: Expect,
 }
@@ -83,28 +98,50 @@ fn logger() -> slog::Logger {
     slog::Logger::root(slog::Discard, slog::o!())
 }
 
-async fn run_scenario(dir: &Path, s: &Scenario) -> Option<String> {
+type RangeDigests = Option<Vec<(String, String)>>;
+async fn range_digests(provider: Option<Arc<dyn ImmutableFileDigestCacheProvider>>, db: &Path, lo: u64, hi: u64) -> RangeDigests {
+    let d = CardanoImmutableDigester::new(provider, logger());
+    match d.compute_digests_for_range(&db, &(lo..=hi)).await {
+        Ok(c) => Some(c.entries.into_iter().map(|(f, h)| (f.filename, h)).collect()),
+        Err(_) => None,
+    }
+}
+/// root, digest list of the final range with the scenario's cache, the same list computed cold
+async fn run_scenario(dir: &Path, s: &Scenario) -> (Option<String>, Option<RangeDigests>, Option<RangeDigests>) {
     let db = build_dir(dir, &s.entries);
-    let provider: Option<Arc<dyn ImmutableFileDigestCacheProvider>> = if s.history.is_empty() && !s.json_cache {
+    let provider: Option<Arc<dyn ImmutableFileDigestCacheProvider>> = if s.history.is_empty() && !s.json_cache && s.final_range.is_none() {
         None
     } else if s.json_cache {
         Some(Arc::new(JsonImmutableFileDigestCacheProvider::new(&dir.join("cache.json"))))
     } else {
         Some(Arc::new(MemoryImmutableFileDigestCacheProvider::default()))
     };
-    for b in &s.history {
+    for h in &s.history {
         // a fresh digester per computation on the same provider: the cache is the only shared state
         let d = CardanoImmutableDigester::new(provider.clone(), logger());
-        let _ = d.compute_merkle_tree(&db, &CardanoDbBeacon::new(1, *b)).await;
+        match h {
+            Hop::Beacon(b) => {
+                let _ = d.compute_merkle_tree(&db, &CardanoDbBeacon::new(1, *b)).await;
+            }
+            Hop::Range(lo, hi) => {
+                let _ = d.compute_digests_for_range(&db, &(*lo..=*hi)).await;
+            }
+        }
     }
     let digester = Arc::new(CardanoImmutableDigester::new(provider.clone(), logger()));
     let builder = CardanoDatabaseSignableBuilder::new(digester, &db, logger());
-    match builder.compute_protocol_message(CardanoDbBeacon::new(1, s.beacon)).await {
+    let root = match builder.compute_protocol_message(CardanoDbBeacon::new(1, s.beacon)).await {
         Ok(pm) => pm
             .get_message_part(&ProtocolMessagePartKey::CardanoDatabaseMerkleRoot)
             .cloned(),
         Err(_) => None,
+    };
+    let (mut warm, mut cold) = (None, None);
+    if let Some((lo, hi)) = s.final_range {
+        warm = Some(range_digests(provider.clone(), &db, lo, hi).await);
+        cold = Some(range_digests(None, &db, lo, hi).await);
     }
+    (root, warm, cold)
 }
 
 fn coq_entry(e: &Entry) -> String {
@@ -116,10 +153,14 @@ fn coq_entry(e: &Entry) -> String {
 }
 fn coq_scenario(s: &Scenario) -> String {
     format!(
-        "{{| sc_listing := {}; sc_beacon := {}; sc_history := {} |}}",
+        "{{| sc_listing := {}; sc_beacon := {}; sc_history := {}; sc_range := {} |}}",
         coq::list(&s.entries.iter().map(coq_entry).collect::<Vec<_>>()),
         coq::n(s.beacon),
-        coq::list_n(&s.history)
+        coq::list(&s.history.iter().map(|h| h.coq()).collect::<Vec<_>>()),
+        match s.final_range {
+            Some((lo, hi)) => format!("Some ({}, {})", coq::n(lo), coq::n(hi)),
+            None => "None".to_string(),
+        }
     )
 }
 
@@ -140,11 +181,11 @@ fn gen_batch(rng: &mut Rng, next_id: &mut u64) -> (String, Vec<Scenario>) {
         }
     }
     let covered: Vec<usize> = (0..base.len()).filter(|i| (first + (*i as u64) / 3) <= beacon).collect();
-    let mut out = vec![Scenario { label: "base", entries: base.clone(), beacon, history: vec![], json_cache: false, expect: Expect::Base }];
+    let mut out = vec![Scenario { label: "base", entries: base.clone(), beacon, history: vec![], final_range: None, json_cache: false, expect: Expect::Base }];
     // creation order
     let mut shuffled = base.clone();
     rng.shuffle(&mut shuffled);
-    out.push(Scenario { label: "shuffled-creation-order", entries: shuffled, beacon, history: vec![], json_cache: false, expect: Expect::Same });
+    out.push(Scenario { label: "shuffled-creation-order", entries: shuffled, beacon, history: vec![], final_range: None, json_cache: false, expect: Expect::Same });
     let mut rev = base.clone();
     rev.reverse();
     // extra files: non-immutable names, sub-directory with an immutable-looking name, files beyond the beacon
@@ -160,29 +201,50 @@ fn gen_batch(rng: &mut Rng, next_id: &mut u64) -> (String, Vec<Scenario>) {
             extra.push(Entry { name, kind: Kind::File(fresh(rng)) });
         }
     }
-    out.push(Scenario { label: "extra-and-beyond-beacon", entries: extra.clone(), beacon, history: vec![], json_cache: rng.coin(), expect: Expect::Same });
+    out.push(Scenario { label: "extra-and-beyond-beacon", entries: extra.clone(), beacon, history: vec![], final_range: None, json_cache: rng.coin(), expect: Expect::Same });
     // cache histories over the unchanged directory
-    let hist_choices: Vec<Vec<u64>> = vec![
-        vec![beacon],
-        vec![beacon.saturating_sub(1).max(first)],
-        vec![last],
-        vec![first, last, beacon],
-        vec![last + 5, first],           // a failing earlier computation, then a shorter one
-        vec![beacon, beacon],
+    use Hop::{Beacon as HB, Range as HR};
+    let hist_choices: Vec<Vec<Hop>> = vec![
+        vec![HB(beacon)],
+        vec![HB(beacon.saturating_sub(1).max(first))],
+        vec![HB(last)],
+        vec![HB(first), HB(last), HB(beacon)],
+        vec![HB(last + 5), HB(first)],           // a failing earlier computation, then a shorter one
+        vec![HB(beacon), HB(beacon)],
+        vec![HR(first, last)],
+        vec![HR(last, last), HB(last)],          // the cache is warm at the END only
+        vec![HB(first), HR(last, last + 1), HB(last), HB(beacon)],   // warm with a hole in the middle
     ];
     for _ in 0..2 {
         let h = rng.pick(&hist_choices).clone();
-        out.push(Scenario { label: "cache-history", entries: if rng.coin() { base.clone() } else { extra.clone() }, beacon, history: h, json_cache: rng.coin(), expect: Expect::Same });
+        out.push(Scenario { label: "cache-history", entries: if rng.coin() { base.clone() } else { extra.clone() }, beacon, history: h, final_range: None, json_cache: rng.coin(), expect: Expect::Same });
+    }
+    // random histories of Merkle-tree and range computations (holes, overlaps, failing ones), then the
+    // root at the beacon and the digest list of a random range, all on one provider
+    for _ in 0..2 {
+        let nh = rng.range(1, 4);
+        let mut h = vec![];
+        for _ in 0..nh {
+            if rng.coin() {
+                h.push(HB(rng.range(first, last + 1)));
+            } else {
+                let lo = rng.range(first.saturating_sub(1), last);
+                h.push(HR(lo, rng.range(lo, last + 1)));
+            }
+        }
+        let lo = rng.range(first, last);
+        let fr = Some((lo, rng.range(lo, last + 1)));
+        out.push(Scenario { label: "cache-history-with-ranges", entries: if rng.coin() { base.clone() } else { extra.clone() }, beacon, history: h, final_range: fr, json_cache: rng.coin(), expect: Expect::Same });
     }
     // perturbations, computed without a cache
     if !covered.is_empty() {
         let i = *rng.pick(&covered);
         let mut changed = base.clone();
         changed[i].kind = Kind::File(fresh(rng).max(1) + 1_000_000);
-        out.push(Scenario { label: "covered-content-changed", entries: changed, beacon, history: vec![], json_cache: false, expect: Expect::Different });
+        out.push(Scenario { label: "covered-content-changed", entries: changed, beacon, history: vec![], final_range: None, json_cache: false, expect: Expect::Different });
         let mut removed = base.clone();
         removed.remove(i);
-        out.push(Scenario { label: "covered-file-removed", entries: removed, beacon, history: vec![], json_cache: false, expect: Expect::Different });
+        out.push(Scenario { label: "covered-file-removed", entries: removed, beacon, history: vec![], final_range: None, json_cache: false, expect: Expect::Different });
         if covered.len() >= 2 {
             let j = *rng.pick(&covered);
             if j != i {
@@ -191,7 +253,7 @@ fn gen_batch(rng: &mut Rng, next_id: &mut u64) -> (String, Vec<Scenario>) {
                 let differ = format!("{a:?}") != format!("{b:?}");
                 swapped[i].kind = b;
                 swapped[j].kind = a;
-                out.push(Scenario { label: "two-covered-contents-swapped", entries: swapped, beacon, history: vec![], json_cache: false, expect: if differ { Expect::Different } else { Expect::Same } });
+                out.push(Scenario { label: "two-covered-contents-swapped", entries: swapped, beacon, history: vec![], final_range: None, json_cache: false, expect: if differ { Expect::Different } else { Expect::Same } });
             }
         }
     }
@@ -200,7 +262,7 @@ fn gen_batch(rng: &mut Rng, next_id: &mut u64) -> (String, Vec<Scenario>) {
         let mut beyond = base.clone();
         let i = base.len() - 1 - rng.below(3) as usize;
         beyond[i].kind = Kind::File(fresh(rng).max(1) + 2_000_000);
-        out.push(Scenario { label: "beyond-beacon-content-changed", entries: beyond, beacon, history: vec![], json_cache: false, expect: Expect::Same });
+        out.push(Scenario { label: "beyond-beacon-content-changed", entries: beyond, beacon, history: vec![], final_range: None, json_cache: false, expect: Expect::Same });
     }
     // model validation (not judged): the same contents under un-padded names whose numbers cross a
     // digit-length boundary (98, 99, 100, ...): ordering is by number, not by name, so the root is the base's
@@ -215,7 +277,7 @@ fn gen_batch(rng: &mut Rng, next_id: &mut u64) -> (String, Vec<Scenario>) {
                 Entry { name: format!("{n}.{ext}"), kind: e.kind.clone() }
             })
             .collect();
-        out.push(Scenario { label: "unpadded-twin-crossing-digit-boundary", entries: twin, beacon: beacon + shift, history: vec![], json_cache: false, expect: Expect::Unjudged });
+        out.push(Scenario { label: "unpadded-twin-crossing-digit-boundary", entries: twin, beacon: beacon + shift, history: vec![], final_range: None, json_cache: false, expect: Expect::Unjudged });
     }
     // model-validation scenarios (not judged): unusual names, stale cache
     match rng.below(6) {
@@ -223,31 +285,31 @@ fn gen_batch(rng: &mut Rng, next_id: &mut u64) -> (String, Vec<Scenario>) {
             let mut odd = base.clone();
             odd.push(Entry { name: format!("{}.chunk", beacon), kind: Kind::File(fresh(rng)) }); // un-padded duplicate number
             odd.push(Entry { name: format!("+{}.primary", beacon), kind: Kind::File(fresh(rng)) });
-            out.push(Scenario { label: "unpadded-and-plus-names", entries: odd, beacon, history: vec![], json_cache: false, expect: Expect::Unjudged });
+            out.push(Scenario { label: "unpadded-and-plus-names", entries: odd, beacon, history: vec![], final_range: None, json_cache: false, expect: Expect::Unjudged });
         }
         1 => {
             let mut bad = base.clone();
             bad.push(Entry { name: "abc.chunk".into(), kind: Kind::File(fresh(rng)) });
-            out.push(Scenario { label: "non-numeric-stem", entries: bad, beacon, history: vec![], json_cache: false, expect: Expect::Unjudged });
+            out.push(Scenario { label: "non-numeric-stem", entries: bad, beacon, history: vec![], final_range: None, json_cache: false, expect: Expect::Unjudged });
         }
         2 => {
             let mut bad = base.clone();
             bad.push(Entry { name: "18446744073709551616.secondary".into(), kind: Kind::File(fresh(rng)) });
             bad.push(Entry { name: "18446744073709551615.secondary".into(), kind: Kind::File(fresh(rng)) });
-            out.push(Scenario { label: "u64-overflow-stem", entries: bad, beacon, history: vec![], json_cache: false, expect: Expect::Unjudged });
+            out.push(Scenario { label: "u64-overflow-stem", entries: bad, beacon, history: vec![], final_range: None, json_cache: false, expect: Expect::Unjudged });
         }
         3 => {
             let mut odd = base.clone();
             odd.push(Entry { name: "1.2.chunk".into(), kind: Kind::File(fresh(rng)) });
-            out.push(Scenario { label: "dotted-stem", entries: odd, beacon, history: vec![], json_cache: false, expect: Expect::Unjudged });
+            out.push(Scenario { label: "dotted-stem", entries: odd, beacon, history: vec![], final_range: None, json_cache: false, expect: Expect::Unjudged });
         }
         4 => {
-            out.push(Scenario { label: "beacon-beyond-last", entries: base.clone(), beacon: last + 1, history: vec![last], json_cache: false, expect: Expect::Unjudged });
+            out.push(Scenario { label: "beacon-beyond-last", entries: base.clone(), beacon: last + 1, history: vec![Hop::Beacon(last)], final_range: None, json_cache: false, expect: Expect::Unjudged });
         }
         _ => {
             let mut odd = base.clone();
             odd.push(Entry { name: "-1.chunk".into(), kind: Kind::File(fresh(rng)) });
-            out.push(Scenario { label: "minus-stem", entries: odd, beacon, history: vec![], json_cache: false, expect: Expect::Unjudged });
+            out.push(Scenario { label: "minus-stem", entries: odd, beacon, history: vec![], final_range: None, json_cache: false, expect: Expect::Unjudged });
         }
     }
     (format!("trios {first}..={last} beacon {beacon}"), out)
@@ -264,13 +326,26 @@ fn main() {
     for _ in 0..nbatches {
         let (label, scenarios) = gen_batch(&mut rng, &mut next_id);
         let Some(id) = sink.wants() else { continue };
-        let roots: Vec<Option<String>> = scenarios
+        let results: Vec<(Option<String>, Option<RangeDigests>, Option<RangeDigests>)> = scenarios
             .iter()
             .enumerate()
             .map(|(k, s)| rt.block_on(run_scenario(&work.join(format!("b{id}-s{k}")), s)))
             .collect();
-        // observation: success flags + equality pattern of successful roots
-        let oks: Vec<&String> = roots.iter().flatten().collect();
+        let roots: Vec<Option<String>> = results.iter().map(|r| r.0.clone()).collect();
+        // observation: success flags + per-scenario file names of the served range + equality pattern
+        // of successful roots followed by every served digest
+        let mut oks: Vec<&String> = roots.iter().flatten().collect();
+        let mut range_obs: Vec<String> = vec![];
+        for r in &results {
+            match &r.1 {
+                None => {}
+                Some(None) => range_obs.push(coq::ol(&[coq::ob(false)])),
+                Some(Some(l)) => {
+                    range_obs.push(coq::ol(&[coq::ob(true), coq::ol(&l.iter().map(|(n, _)| coq::oln(&n.bytes().map(|b| b as u64).collect::<Vec<_>>())).collect::<Vec<_>>())]));
+                    oks.extend(l.iter().map(|(_, d)| d));
+                }
+            }
+        }
         let mut seen: Vec<&String> = vec![];
         let pattern: Vec<u64> = oks
             .iter()
@@ -282,12 +357,18 @@ fn main() {
                 }
             })
             .collect();
-        let impl_obs = coq::ol(&[coq::ol(&roots.iter().map(|r| coq::ob(r.is_some())).collect::<Vec<_>>()), coq::oln(&pattern)]);
+        let impl_obs = coq::ol(&[coq::ol(&roots.iter().map(|r| coq::ob(r.is_some())).collect::<Vec<_>>()), coq::ol(&range_obs), coq::oln(&pattern)]);
         // the property, judged from each scenario's known relation to the base
         let mut why = None;
         let base_root = roots[0].clone();
         if base_root.is_none() {
             why = Some("base scenario (complete directory, beacon present) failed".to_string());
+        }
+        for (s, res) in scenarios.iter().zip(&results) {
+            // the digest list served with a used cache is the one served without any cache
+            if why.is_none() && res.1 != res.2 {
+                why = Some(format!("scenario `{}` (history {:?}, json_cache {}): digest list of range {:?} with the cache {:?} differs from the cache-less one {:?}", s.label, s.history, s.json_cache, s.final_range, res.1, res.2));
+            }
         }
         for (s, r) in scenarios.iter().zip(&roots).skip(1) {
             if why.is_some() {
@@ -311,7 +392,7 @@ fn main() {
             desc: serde_json::json!({
                 "batch": label,
                 "scenarios": scenarios.iter().map(|s| serde_json::json!({
-                    "label": s.label, "beacon": s.beacon, "history": s.history, "json_cache": s.json_cache,
+                    "label": s.label, "beacon": s.beacon, "history": format!("{:?}", s.history), "final_range": format!("{:?}", s.final_range), "json_cache": s.json_cache,
                     "expect": format!("{:?}", s.expect),
                     "entries": s.entries.iter().map(|e| match &e.kind { Kind::File(c) => format!("{}=#{}", e.name, c), Kind::Dir => format!("{}/", e.name) }).collect::<Vec<_>>()
                 })).collect::<Vec<_>>(),
